@@ -186,8 +186,8 @@ def progsIf : List (List Call) := [[.enqueue], [.processIf false], [.emptyQueue]
     (it is now in its `kept` list); the observer starts `emptyQueue` and reads the list as empty -/
 def schedIf1 : List (Tid × Nat) := rep 0 5 ++ rep 1 6 ++ rep 2 2
 
-/-- … the consumer puts event 0 back and lowers `ec`; the observer reads `ec = 0` -/
-def schedIf2 : List (Tid × Nat) := schedIf1 ++ rep 1 2 ++ rep 2 1
+/-- … the consumer puts event 0 back, notifies (nobody waits) and lowers `ec`; the observer reads `ec = 0` -/
+def schedIf2 : List (Tid × Nat) := schedIf1 ++ rep 1 4 ++ rep 2 1
 
 example : (exec (init progsIf) schedIf1).queue = [] ∧ (exec (init progsIf) schedIf1).ec = 1 ∧
     (exec (init progsIf) schedIf1).threads.map (·.pc) = [.idle, .procPutBack [0] false, .emptyRead2 1] := by
